@@ -8,6 +8,7 @@ import (
 	"github.com/DataDog/datadog-agent/pkg/obfuscate"
 	"github.com/GuanceCloud/grok"
 	"github.com/antchfx/xmlquery"
+	"github.com/antchfx/xpath"
 	"github.com/araddon/dateparse"
 	"github.com/spf13/cast"
 	"verifharness/gen"
@@ -190,6 +191,20 @@ func Extraction(gs *GrokStatic) map[string]fn {
 	return m
 }
 
+func queryNode(doc *xmlquery.Node, expr string) (n *xmlquery.Node, err error) {
+	defer func() {
+		if r := recover(); r != nil {
+			n, err = nil, fmt.Errorf("xpath %q: %v", expr, r)
+		}
+	}()
+	// compiled afresh: the engine's cache of compiled expressions is not part of the reference
+	exp, cerr := xpath.Compile(expr)
+	if cerr != nil {
+		return nil, cerr
+	}
+	return xmlquery.QuerySelector(doc, exp), nil
+}
+
 func xmlFn(in *model.Interp, c *gen.Node) (any, error) {
 	if len(c.Args) != 3 || c.Args[1].Kind != gen.Str {
 		return nil, model.ErrUnsupported
@@ -210,7 +225,8 @@ func xmlFn(in *model.Interp, c *gen.Node) (any, error) {
 	if perr != nil {
 		return model.Void, nil
 	}
-	node, qerr := xmlquery.Query(doc, c.Args[1].S)
+	// an expression the engine cannot evaluate to a node - also one it gives up on abnormally - selects nothing
+	node, qerr := queryNode(doc, c.Args[1].S)
 	if qerr != nil || node == nil {
 		return model.Void, nil
 	}
